@@ -22,6 +22,7 @@ cMenu == {R(p) : p \in cLeaf}
    \cup {[k |-> "neg", a |-> R(p)] : p \in {"b", "d"}}
    \cup {B("*", B("+", R("a"), R("b")), R("c")), B("+", B("*", R("b"), L(2)), B("*", R("c"), L(3)))}
    \cup {[k |-> "rnd", a |-> B("*", R("a"), L(5)), p |-> R("b")]}
+   \cup {B("*", R("a"), L(-1)), B("*", R("a"), L(-2))}      \* two definitions that differ only in literals of equal Python hash (hash(-1) = hash(-2)): a redefinition must still replace
 
 cTaskSpec == [t \in {"F1", "K1", "O1"} |->
    IF t = "O1" THEN [kind |-> "obs", deps |-> {"a"}, targets |-> {}]
